@@ -238,6 +238,19 @@ func alphaKind[K chars](name string, slice bool) *Kind[K] {
 			}
 			return out
 		},
+		Staircase: func(r *rng.R) []K {
+			var out []K
+			cur := fromAlphabet(r, smallAlphabet, r.Intn(3))
+			steps := 36 + r.Intn(40)
+			for i := 0; i < steps; i++ {
+				cur = cat(cur, []byte{smallAlphabet[r.Intn(len(smallAlphabet))]})
+				out = append(out, K(append([]byte{}, cur...)))
+				if r.Chance(1, 3) {
+					out = append(out, K(cat(cur, []byte{'~'}, fromAlphabet(r, tinyAlphabet, r.Intn(2)))))
+				}
+			}
+			return out
+		},
 		Fan2: func(r *rng.R) ([]K, int, []K) {
 			P := fromAlphabet(r, smallAlphabet, rng.Pick(r, []int{0, 2, 9, 12}))
 			b0 := 40 + r.Intn(180)
